@@ -101,7 +101,7 @@ def silence_fds():
 
 
 def private_tmpdir():
-    d = os.path.join(VERIF, ".work", "p%d" % os.getpid())
+    d = os.path.join(os.environ.get("PBT_WORK") or os.path.join(VERIF, ".work"), "p%d" % os.getpid())
     shutil.rmtree(d, ignore_errors=True)
     os.makedirs(d, exist_ok=True)
     os.environ["TMPDIR"] = d
